@@ -19,7 +19,7 @@ ORACLE = ('every non-zero Ref and every RefList element in any _grist_* table re
 ASSUMPTIONS = ['the generator never writes a dangling metadata reference itself (writing one on request is supported behaviour)',
                'GristHidden_* import tables are not generated']
 BUDGET = {'quick': dict(examples=1400, shards=16, max_seconds=75),
-          'thorough': dict(examples=19000, shards=16, max_seconds=1800)}
+          'thorough': dict(examples=4000, shards=16, max_seconds=1800)}
 SHRINK_BUDGET = {'quick': 60, 'thorough': 400}
 
 META_TABLES = ('_grist_Tables', '_grist_Tables_column', '_grist_Views', '_grist_Views_section',
